@@ -435,13 +435,13 @@ def checkTraffic (cfg : Cfg) (a : A) (evs : List Ev) : A :=
 
 /-- the part of a round after the last frame read: periodic messages -/
 def tail (cfg : Cfg) (a : A) (evs : List Ev) : A :=
-  let tick1 := cfg.timing && a.now - a.tTiming > 900
+  let tick1 := cfg.timing && a.now - a.tTiming > cfg.pTiming
   let a := if tick1 then checkTiming cfg a evs else a.chk (!(sends evs).any (fun p => match p.2.2.body with | .timing .. => true | _ => false)) "C18" "TIMING_MESSAGE sent before its period elapsed"
   let a := if tick1 then { a with pubT := [], recvT := [], tTiming := a.now } else a
-  let tick2 := a.now - a.tTraffic > 1000
+  let tick2 := a.now - a.tTraffic > cfg.pTraffic
   let a := if tick2 then checkTraffic cfg a evs else a
   let a := if tick2 then { a with pubR := [], recvR := [], tTraffic := a.now, seq := a.seq + 1 } else a
-  let a := if a.now - a.tInfo > 5000 then { a with tInfo := a.now } else a
+  let a := if a.now - a.tInfo > cfg.pInfo then { a with tInfo := a.now } else a
   a
 
 /-! ### one round -/
@@ -476,6 +476,24 @@ def checkNoticeOrigin (cfg : Cfg) (a : A) (rd : Option Read) (evs : List Ev) : A
       a.err "C14" s!"a FAILED_MESSAGE sent to {p.1} names subscriber id {dm} and carries type {t}, source {s}, destination {d}: no such delivery was under way"
     | _ => a
 
+/-- C14: “a logger module is waited for instead of being skipped”: a logger that subscribes to the type of the data frame
+being forwarded gets its copy also when its connection was not ready to accept data in this round (whatever the destination
+of the frame: loggers hear addressed messages too). -/
+def checkLoggerWaited (cfg : Cfg) (a : A) (rd : Read) (evs : List Ev) : A :=
+  match a.get rd.uid with
+  | none => a
+  | some m =>
+    let h := rd.h
+    let broken := rd.hdrErr || !rd.hdrOk || h.nbytes < 0 || h.nbytes > cfg.bufMax ||
+                  (h.nbytes > 0 && (rd.payErr || (rd.avail : Int) < h.nbytes))
+    let t := h.mtype
+    let inRange := !(h.dest < 0 || h.dest > cfg.maxModules || h.destHost < 0 || h.destHost > cfg.maxHosts)
+    if !m.alive || broken || isControl cfg t || !inRange || t == cfg.allTypes then a else
+    let mine := (sends evs).filter (fun p => p.2.2.body == .data h.k)
+    (a.mods.filter (fun l => l.alive && l.isLogger && subscribed l t && !a.w.contains l.uid && !a.failing l.uid)).foldl
+      (fun a l => a.chk (mine.any (·.1 == l.uid)) "C14"
+        s!"logger {l.uid} was not ready to accept data when frame {h.k} (type {t}, destination {h.dest}) was delivered and was skipped instead of waited for") a
+
 /-- everything of one round but the periodic section: returns the state and the events of the round's last stretch -/
 def roundBody (cfg : Cfg) (a : A) (r : Round) (evs : List Ev) : A × List Ev :=
   -- a failure mode can only be given to a connection that exists when the round starts
@@ -485,11 +503,17 @@ def roundBody (cfg : Cfg) (a : A) (r : Round) (evs : List Ev) : A × List Ev :=
   let reads := r.reads.filter (fun rd => liveBefore.contains rd.uid)
   let a := if r.accept then { a with nAccepted := a.nAccepted + 1, mods := a.mods ++ [{ uid := a.nAccepted + 1 }] } else a
   let live := (a.mods.filter (·.alive)).map (·.uid)
-  let a := if r.accept || !reads.isEmpty then { a with w := if reads.isEmpty then [] else r.writable.filter (live.contains ·) } else a
+  -- the writable set this round's poll leaves (the manager polls only when there is something to read)
+  let wNew := if r.accept || !reads.isEmpty then (if reads.isEmpty then [] else r.writable.filter (live.contains ·)) else a.w
   let (pre, segs) := splitRd evs
-  -- `pre`: the accept log; nothing may be closed or acknowledged there
-  let a := a.chk ((closes pre).isEmpty || !(wfails pre).isEmpty) "C07" "a connection was closed before any frame was read in this round"
-  let a := applyDepartures (checkDepartures cfg (checkNoticeOrigin cfg a none pre) none pre) pre
+  -- `pre`: the accept branch (its INFO log line and everything nested in it) runs BEFORE this round's poll: readiness
+  -- there is what the PREVIOUS poll left (`a.w`).  When no frame is read in the round `pre` is the whole round — the
+  -- accept branch, then (after the poll) the periodic section — and only a connection that is ready by both polls is
+  -- counted as ready.  Nothing may be closed there without a failed write.
+  let aP : A := if segs.isEmpty then { a with w := a.w.filter (wNew.contains ·) } else a
+  let aP := aP.chk ((closes pre).isEmpty || !(wfails pre).isEmpty) "C07" "a connection was closed before any frame was read in this round"
+  let aP := applyDepartures (checkDepartures cfg (checkNoticeOrigin cfg aP none pre) none pre) pre
+  let a : A := { aP with w := wNew }
   -- every frame the script delivers to a live connection is read, in order, unless its connection died earlier in the round
   let rec go (a : A) (reads : List Read) (segs : List (Nat × List Ev)) (fuel : Nat) : A :=
     match fuel, reads, segs with
@@ -505,7 +529,7 @@ def roundBody (cfg : Cfg) (a : A) (r : Round) (evs : List Ev) : A × List Ev :=
             if u != rd.uid then a.err "C05" s!"expected the frame from {rd.uid} to be read next, the manager read from {u}"
             else
               -- the last segment of the round also contains the periodic messages
-              go (segment cfg (checkNoticeOrigin cfg a (some rd) evs) rd evs) rest segs' fuel
+              go (segment cfg (checkLoggerWaited cfg (checkNoticeOrigin cfg a (some rd) evs) rd evs) rd evs) rest segs' fuel
           | [] => a.err "C03" s!"the frame pending on live connection {rd.uid} was never read"
       | none => go a rest segs fuel
   let a := go a reads segs (reads.length + segs.length + 1)
